@@ -95,3 +95,34 @@ def parse_matrix(line):
 
 def scalar_tok(t):
     return " ".join(str(k) for k in t)
+
+
+# --------------------------------------------------------------------------- exact arithmetic
+# (same formulas as lean/Model/Cyc8.lean: `norm`, `mul`, `conj`; used to square a chosen root exactly)
+
+def norm(a, b, c, d, e):
+    while e > 0 and a % 2 == 0 and b % 2 == 0 and c % 2 == 0 and d % 2 == 0:
+        a, b, c, d, e = a // 2, b // 2, c // 2, d // 2, e - 1
+    return (a, b, c, d, e)
+
+
+def mul(x, y):
+    xa, xb, xc, xd, xe = x
+    ya, yb, yc, yd, ye = y
+    return norm(xa * ya - xb * yd - xc * yc - xd * yb,
+                xa * yb + xb * ya - xc * yd - xd * yc,
+                xa * yc + xb * yb + xc * ya - xd * yd,
+                xa * yd + xb * yc + xc * yb + xd * ya, xe + ye)
+
+
+def neg(x):
+    return (-x[0], -x[1], -x[2], -x[3], x[4])
+
+
+def conj(x):
+    return (x[0], -x[3], -x[2], -x[1], x[4])
+
+
+def is_real(x):
+    """x = conj(x): no i-part and the ζ, ζ³ parts combine to a multiple of √2 = ζ − ζ³."""
+    return conj(x) == x
